@@ -133,7 +133,7 @@ func DefaultFunding(r *rand.Rand, double bool) (map[string]*big.Int, *big.Int) {
 			v = big.NewInt(0)
 		}
 		if double && i == 4 {
-			v = new(big.Int).Set(Max256)
+			v = new(big.Int).Lsh(Max256, 16)
 		}
 		f[Acct(i)] = v
 	}
